@@ -1669,6 +1669,9 @@ class TCPConnector(BaseConnector):
                 read_until_eof=True,
                 read_timeout=timeout.sock_read,
                 timeout_ceil_threshold=self._timeout_ceil_threshold,
+                max_line_size=req._response_params["max_line_size"],
+                max_field_size=req._response_params["max_field_size"],
+                max_headers=req._response_params["max_headers"],
             )
             proxy_resp = await proxy_req._send(conn)
             try:
